@@ -14,7 +14,7 @@
 (* Row r is "j" of the code (y = r is the S edge of the row), column c is "i".             *)
 (* A polygon is a record [val, rings]; rings[1] is the exterior, the others are holes;     *)
 (* a ring is a sequence of points <<x, y>> in pixel-corner coordinates.                    *)
-EXTENDS Components, Sequences
+EXTENDS Components, Sequences, TLC
 
 PMin(a, b) == IF a < b THEN a ELSE b
 PMax(a, b) == IF a > b THEN a ELSE b
@@ -42,7 +42,14 @@ InsideRing(ring, r, c) == Crossings(ring, r, c) % 2 = 1
 InPolygon(poly, r, c) ==
   /\ InsideRing(poly.rings[1], r, c)
   /\ \A h \in 2..Len(poly.rings) : ~InsideRing(poly.rings[h], r, c)
-CellsOf(g, poly) == {p \in GCells(g) : InPolygon(poly, p[1], p[2])}
+\* a centre inside a ring lies inside the ring's bounding box: only those cells have to be looked at
+SetMin(S) == CHOOSE x \in S : \A y \in S : x <= y
+SetMax(S) == CHOOSE x \in S : \A y \in S : x >= y
+BBoxCells(g, ring) ==
+  LET xs == {ring[k][1] : k \in 1..Len(ring)}  ys == {ring[k][2] : k \in 1..Len(ring)} IN
+  {p \in (SetMin(ys)..(SetMax(ys) - 1)) \X (SetMin(xs)..(SetMax(xs) - 1)) :
+      p[1] >= 0 /\ p[1] < g.H /\ p[2] >= 0 /\ p[2] < g.W}
+CellsOf(g, poly) == {p \in BBoxCells(g, poly.rings[1]) : InPolygon(poly, p[1], p[2])}
 
 RingClosed(ring) == Len(ring) >= 5 /\ ring[1] = ring[Len(ring)]
 RingOnCorners(g, ring) == \A k \in 1..Len(ring) : ring[k][1] \in 0..g.W /\ ring[k][2] \in 0..g.H
@@ -54,25 +61,32 @@ HoleArea2(poly, h) == IF h > Len(poly.rings) THEN 0
                       ELSE CAbs(Shoelace2(poly.rings[h])) + HoleArea2(poly, h + 1)
 Area2(poly) == CAbs(Shoelace2(poly.rings[1])) - HoleArea2(poly, 2)
 
-\* first failing clause of the property, "ok" if none
+\* first failing clause of the property, "ok" if none.
+\* cs[k] = the cells whose centre is assigned to polygon k (evaluated once per polygon).
+RECURSIVE SumCard(_, _)
+SumCard(cs, k) == IF k = 0 THEN 0 ELSE Cardinality(cs[k]) + SumCard(cs, k - 1)
 LosslessClause(g, polys) ==
   LET K == 1..Len(polys)
       RingsOf(k) == 1..Len(polys[k].rings)
-      Owners(p) == {k \in K : InPolygon(polys[k], p[1], p[2])}
   IN
   IF \E k \in K : Len(polys[k].rings) = 0 THEN "polygon_without_exterior"
   ELSE IF \E k \in K : \E h \in RingsOf(k) : ~RingClosed(polys[k].rings[h]) THEN "ring_not_closed"
   ELSE IF \E k \in K : \E h \in RingsOf(k) : ~RingOnCorners(g, polys[k].rings[h]) THEN "vertex_not_a_cell_corner"
   ELSE IF \E k \in K : \E h \in RingsOf(k) : ~RingAxisParallel(polys[k].rings[h]) THEN "edge_not_axis_parallel"
-  ELSE IF \E p \in GCells(g) : GVal(g, p) = NANV /\ Owners(p) # {} THEN "masked_cell_in_a_polygon"
-  ELSE IF \E p \in GValid(g) : Owners(p) = {} THEN "cell_in_no_polygon"
-  ELSE IF \E p \in GValid(g) : Cardinality(Owners(p)) > 1 THEN "cell_in_two_polygons"
-  ELSE IF \E p \in GValid(g) : \E k \in Owners(p) : polys[k].val # GVal(g, p) THEN "value_not_reproduced"
-  ELSE IF \E k \in K : Area2(polys[k]) # 2 * Cardinality(CellsOf(g, polys[k])) THEN "area_differs_from_cell_count"
+  ELSE
+  LET cs == TLCEval([k \in K |-> CellsOf(g, polys[k])])
+      covered == UNION {cs[k] : k \in K}
+  IN
+  IF \E k \in K : \E p \in cs[k] : GVal(g, p) = NANV THEN "masked_cell_in_a_polygon"
+  ELSE IF GValid(g) \ covered # {} THEN "cell_in_no_polygon"
+  \* the polygons' cell sets are pairwise disjoint iff their sizes add up to the size of their union
+  ELSE IF SumCard(cs, Len(polys)) # Cardinality(covered) THEN "cell_in_two_polygons"
+  ELSE IF \E k \in K : \E p \in cs[k] : polys[k].val # GVal(g, p) THEN "value_not_reproduced"
+  ELSE IF \E k \in K : Area2(polys[k]) # 2 * Cardinality(cs[k]) THEN "area_differs_from_cell_count"
   ELSE IF \E k \in K : Shoelace2(polys[k].rings[1]) <= 0 THEN "exterior_not_anticlockwise"
   ELSE IF \E k \in K : \E h \in 2..Len(polys[k].rings) : Shoelace2(polys[k].rings[h]) >= 0 THEN "hole_not_clockwise"
   \* the polygons are exactly the connected regions of equal value
-  ELSE IF {CellsOf(g, polys[k]) : k \in K} # Components(g) THEN "polygon_is_not_a_connected_region"
+  ELSE IF {cs[k] : k \in K} # Components(g) THEN "polygon_is_not_a_connected_region"
   ELSE IF Len(polys) # Cardinality(Components(g)) THEN "polygon_count_differs_from_region_count"
   ELSE "ok"
 
